@@ -20,6 +20,7 @@ FAULTS = (sqlite3.OperationalError, KeyboardInterrupt, OSError)
 
 class NameVal:
     """a name value: identity (base, drop) = `base` without its last `drop` components; form = given|formal|bytes"""
+    opaque_value = True          # stands for an unknown value of a library type: foreign contracts do not know it
 
     def __init__(self, base, drop=0, form='given', owner=None):
         self.base, self.drop, self.form, self.owner = base, drop, form, owner
